@@ -39,6 +39,11 @@ chk("C15",
     TRUST + "Not decided: per-object Validate acceptance of every reachable value; lock-step behavioural equivalence after re-import.",
     "effect/coverage tables over the genesis call trees + provenance-term agreement between validator keys, store keys and records", "DESIGN.md section 4 C15")
 
+chk("C16",
+    "Structural necessary conditions: (PUB-MATCHFLAG) the code that persists Bid.IsMatched in the block hook's call tree can write false for records taken from the auction's complete bid list and a computed flag depends on the matching result's matched bids; (PUB-PRICE) abstract exploration of the batch settlement routine: every non-failing path that performs a settlement transfer assigns BatchAuction.MatchedPrice from the matching result's price (or the constant zero, but not on all paths) and then stores the auction; (QRY-KEY) each by-id query reads under the key built from exactly the request's id fields; (QRY-FIELDUSE) every non-pagination request field of every query handler is read and used; (QRY-FILTER) for each string filter of a filtered list query, with only that filter set, the predicate's result set is exactly {attribute equals filter}. Three known findings (auction_id of the three list queries is ignored) print KNOWN-FINDING.",
+    TRUST + "Not decided: equality of flags with balance deltas; fixed-price dust bids; that the clearing price itself is right (C03).",
+    "writer/provenance analysis of published fields + effect automaton over abstract paths + finite-ordering evaluation of filter predicates", "DESIGN.md section 4 C16")
+
 PENDING = {}  # property -> reason (kept current as checks are added)
 ALL = ["C%02d" % i for i in range(1, 21)]
 for p in ALL:
